@@ -519,53 +519,69 @@ def r4_gradient(ctx, repo, cls):
         return
     ploop = ploops[0]
     ind = ploop.target.id
-    cloops = [s for s in stmts_of(ploop) if isinstance(s, ast.For) and isinstance(s.target, (ast.Name, ast.Tuple))
-              and (ind + ".children") in text(s.iter)]
-    if len(cloops) != 1:
-        ctx.inconclusive("R4", construct, where(mod, ploop), "children loop not found", key="quotient")
+    # the store of a gradient component, G[K] = V, inside a loop over the children of the design; K and V are read as
+    # terms over the loop's index (whatever the loop is written like: range, enumerate, element loop with a counter)
+    from .. import poly
+    TT = Terms(run)
+    cands = []
+    for cl in [s for s in stmts_of(ploop) if isinstance(s, ast.For) and s is not ploop]:
+        info = TT.loop_of(cl)
+        if info is None:
+            continue
+        for s in stmts_of(cl):
+            if isinstance(s, ast.Assign) and len(s.targets) == 1 and isinstance(s.targets[0], ast.Subscript) and isinstance(s.targets[0].value, ast.Name):
+                V = TT.expand(s.value, at=s, elems=True, skip=(ind,))
+                if ".costs[" in text(V) and (ind + ".children[") in text(V):
+                    cands.append((cl, info, s, V))
+    if len(cands) != 1:
+        ctx.inconclusive("R4", construct, where(mod, ploop), "gradient component assignment inside a loop over the children not found", key="quotient")
         return
-    cloop = cloops[0]
-    # index variable: counter idiom or enumerate
-    if isinstance(cloop.target, ast.Tuple) and isinstance(cloop.iter, ast.Call) and access_path(cloop.iter.func) == "enumerate":
-        ivar, ch = cloop.target.elts[0].id, cloop.target.elts[1].id
-        counter_ok = True
-    else:
-        ch = cloop.target.id
-        ivar = None
-        counter_ok = False
-    q = None
-    for s in cloop.body:
-        if isinstance(s, ast.Assign) and len(s.targets) == 1 and isinstance(s.targets[0], ast.Subscript):
-            q = s
-    if q is None:
-        ctx.inconclusive("R4", construct, where(mod, cloop), "gradient component assignment not found", key="quotient")
+    cloop, info, q, v = cands[0]
+    idx = info.index
+    K = TT.expand(q.targets[0].slice, at=q, elems=True, skip=(ind,))
+    lo = info.lo if info.lo is not None else ast.Constant(value=0)
+    hi = TT.expand(info.hi, at=cloop, skip=(ind,)) if info.hi is not None else None
+    rng_ok = None
+    if hi is not None and info.step is None:
+        e_lo, e_hi = poly.equal(lo, poly.parse("0")), poly.equal(hi, poly.parse("len(%s.children)" % ind))
+        rng_ok = True if (e_lo and e_hi) else (False if (e_lo is False or e_hi is False) else None)
+    if rng_ok is False:
+        ctx.violated("R4", construct, where(mod, cloop), "the child loop visits children [%s, %s), not every child: some gradient components are never computed" % (text(lo), text(hi)), key="quotient")
         return
-    if ivar is None:
-        ivar = access_path(q.targets[0].slice)
-        # counter idiom: ivar = 0 before the child loop (inside design loop), ivar += 1 once at the end of every iteration
-        init = any(isinstance(s, ast.Assign) and any(access_path(t) == ivar for t in s.targets) and is_const(s.value) and const_value(s.value) == 0
-                   for s in ploop.body[:ploop.body.index(cloop)] if True) if cloop in ploop.body else False
-        incs = [s for s in cloop.body if isinstance(s, ast.AugAssign) and access_path(s.target) == ivar and isinstance(s.op, ast.Add)
-                and is_const(s.value) and const_value(s.value) == 1]
-        counter_ok = init and len(incs) == 1 and cloop.body.index(incs[0]) > cloop.body.index(q)
-    if access_path(q.targets[0].slice) != ivar or not counter_ok:
-        ctx.violated("R4", construct, where(mod, q), "gradient component index %s does not run 0,1,2... in step with the children (one per axis)" % text(q.targets[0].slice), key="quotient")
+    if rng_ok is None:
+        ctx.inconclusive("R4", construct, where(mod, cloop), "range of the child loop %s not recognised" % text(cloop.iter), key="quotient")
         return
-    v = Terms(run).expand(q.value, at=q, skip=(ch, ind))
     if not (isinstance(v, ast.BinOp) and isinstance(v.op, ast.Div)):
-        ctx.violated("R4", construct, where(mod, q), "gradient component %s is not a difference quotient" % text(v), key="quotient")
+        cost_like = isinstance(v, ast.BinOp) and isinstance(v.op, ast.Sub) and all((access_path(x) or "").find(".costs[") >= 0 for x in (v.left, v.right))
+        ctx.check3(False if cost_like else None, "R4", construct, where(mod, q), "", "gradient component %s is a plain difference: it is not divided by the step" % text(v),
+                   "gradient component %s is not recognised as a difference quotient" % text(v), key="quotient")
         return
     num, den = v.left, v.right
-    if not (isinstance(num, ast.BinOp) and isinstance(num.op, ast.Sub)):
-        ctx.violated("R4", construct, where(mod, q), "numerator %s is not a difference" % text(num), key="quotient")
+    if not (isinstance(num, ast.BinOp) and isinstance(num.op, ast.Sub) and all((access_path(x) or "").find(".costs[") >= 0 for x in (num.left, num.right))):
+        ctx.inconclusive("R4", construct, where(mod, q), "numerator %s is not recognised as a difference of two objective values" % text(num), key="quotient")
         return
-    TQ = Terms(run)
-    want_l = text(TQ.expand(ast.parse("%s.costs[0]" % ch, mode="eval").body, at=q))
-    if text(num.left) not in ("%s.costs[0]" % ch, want_l) or text(num.right) != "%s.costs[0]" % ind:
-        ctx.violated("R4", construct, where(mod, q), "numerator is %s, expected f0(child) - f0(parent) = %s.costs[0] - %s.costs[0] (forward difference of the first objective)" % (text(num), ch, ind), key="quotient")
+    J = None
+    if isinstance(num.left, ast.Subscript) and isinstance(num.left.value, ast.Attribute) and isinstance(num.left.value.value, ast.Subscript) \
+            and access_path(num.left.value.value.value) == ind + ".children":
+        J = num.left.value.value.slice
+    if J is None or text(num.left) != "%s.children[%s].costs[0]" % (ind, text(J)) or text(num.right) != "%s.costs[0]" % ind:
+        ctx.violated("R4", construct, where(mod, q), "numerator is %s, expected f0(child) - f0(parent) = %s.children[k].costs[0] - %s.costs[0] (forward difference of the first objective)" % (text(num), ind, ind), key="quotient")
         return
-    if step_attr is None or access_path(den) != step_attr.replace(step_attr.split(".")[0], selfn, 1):
-        ctx.violated("R4", construct, where(mod, q), "divisor %s is not the displacement step %s used in add()" % (text(den), step_attr), key="quotient")
+    same = poly.equal(K, J)
+    only_idx = {n_.id for n_ in ast.walk(K) if isinstance(n_, ast.Name)} <= {idx}
+    if same is not True:
+        ctx.check3(False if (same is False and only_idx) else None, "R4", construct, where(mod, q), "",
+                   "gradient component index %s does not run in step with the children (child %s): components are shifted or overwritten" % (text(K), text(J)),
+                   "gradient component index %s is not recognised as the position of child %s" % (text(K), text(J)), key="quotient")
+        return
+    want_den = step_attr.replace(step_attr.split(".")[0], selfn, 1) if step_attr else None
+    if step_attr is None:
+        ctx.inconclusive("R4", construct, where(mod, q), "the displacement step of add() is not known", key="quotient")
+        return
+    if access_path(den) != want_den:
+        recognised = access_path(den) is not None or is_const(den) or (isinstance(den, ast.BinOp) and want_den in text(den))
+        ctx.check3(False if recognised else None, "R4", construct, where(mod, q), "", "divisor %s is not the displacement step %s used in add()" % (text(den), step_attr),
+                   "divisor %s not recognised" % text(den), key="quotient")
         return
     ctx.holds("R4", construct, where(mod, q), "component[k] = (f0(child k) - f0(parent)) / %s" % text(den), key="quotient")
     # stored under features['gradient'] of the design
